@@ -175,7 +175,11 @@ def _scenario_for(pki, case):
         sc.items = list(case.clear)
         return sc
     ctl = control_for(pki, case.cert, case.port)
-    if case.tlsclients is not None:
+    if case.tlsclients == 'DIR':
+        # control/tlsclients cannot be read (a directory in its place): tls_verify() fails before it asks for a certificate
+        ctl['clientca.pem'] = pki['clientca']
+        ctl['tlsclients'] = None
+    elif case.tlsclients is not None:
         ctl['clientca.pem'] = pki['clientca']
         ctl['tlsclients'] = ''.join(x + '\n' for x in case.tlsclients).encode()
     sc = smtpworld.base_scenario(port=case.port, extra_control=ctl)
